@@ -313,10 +313,12 @@ theorem live_exec {r : Run} (wf : WF r) : ∀ (ops : List Op) {s : St}, Inv r s 
 def answeredB (r : Run) (s : St) (l : Log) : Bool :=
   decide (l ∈ s.submitted) && (names r.cfg).all (fun g => decide (s.gor g l ≠ .inflight))
 
-/-- members of `L` whose answer is still outstanding -/
-def uns (r : Run) (s : St) (L : List Log) : Nat := (L.filter (fun l => !answeredB r s l)).length
+/-- members of `L` outside `bad` whose answer is still outstanding (`bad`: the logs that fail or hang) -/
+def uns (r : Run) (s : St) (bad : Log → Bool) (L : List Log) : Nat :=
+  (L.filter (fun l => !answeredB r s l && !bad l)).length
 
-def NoErr (s : St) : Prop := ∀ l, s.sub.results l ≠ some .err
+/-- every log that has answered with an error is in `bad` -/
+def ErrIn (bad : Log → Bool) (s : St) : Prop := ∀ l, s.sub.results l = some .err → bad l = true
 
 theorem length_le_of_nodup_subset : ∀ {A C : List Nat}, A.Nodup → (∀ x ∈ A, x ∈ C) → A.length ≤ C.length
   | [], _, _, _ => by simp
@@ -351,24 +353,40 @@ theorem filter_disjoint_le {A B C : List Nat} (p : Nat → Bool) (hA : A.Nodup) 
   have := length_le_of_nodup_subset hn hsub
   simpa [List.length_append] using this
 
-theorem uns_congr {r : Run} {s s' : St} (L : List Log) (h : ∀ l ∈ L, answeredB r s' l = answeredB r s l) :
-    uns r s' L = uns r s L := by
+theorem uns_congr {r : Run} {s s' : St} {bad : Log → Bool} (L : List Log)
+    (h : ∀ l ∈ L, bad l = false → answeredB r s' l = answeredB r s l) :
+    uns r s' bad L = uns r s bad L := by
   unfold uns
   congr 1
   apply List.filter_congr
   intro l hl
-  rw [h l hl]
+  cases hb : bad l
+  · rw [h l hl hb]
+  · simp
 
 /-- a log that becomes answered leaves the outstanding part of every duplicate-free list it belongs to -/
-theorem uns_answer {r : Run} {s s' : St} {L : List Log} {l : Log} (hn : L.Nodup) (hl : l ∈ L)
+theorem uns_answer {r : Run} {s s' : St} {bad : Log → Bool} {L : List Log} {l : Log} (hn : L.Nodup) (hl : l ∈ L)
+    (hgood : bad l = false)
     (hb : answeredB r s l = false) (ha : answeredB r s' l = true)
-    (hrest : ∀ x, x ≠ l → answeredB r s' x = answeredB r s x) : uns r s L = uns r s' L + 1 := by
+    (hrest : ∀ x, x ≠ l → answeredB r s' x = answeredB r s x) : uns r s bad L = uns r s' bad L + 1 := by
   unfold uns
   apply filter_length_succ hn hl
   · simp [ha]
-  · simp [hb]
+  · simp [hb, hgood]
   · intro x hx
     rw [hrest x hx]
+
+/-- the answer of a `bad` log, or of a log outside `L`, does not change the outstanding good part of `L` -/
+theorem uns_other {r : Run} {s s' : St} {bad : Log → Bool} {L : List Log} {l : Log} (h : bad l = true ∨ l ∉ L)
+    (hrest : ∀ x, x ≠ l → answeredB r s' x = answeredB r s x) : uns r s' bad L = uns r s bad L := by
+  apply uns_congr
+  intro x hx hbx
+  apply hrest
+  intro he
+  subst he
+  rcases h with h | h
+  · rw [h] at hbx; cases hbx
+  · exact h hx
 
 theorem pos_length_of_mem_filter {L : List Nat} {p : Nat → Bool} {l : Nat} (hl : l ∈ L) (hp : p l = true) :
     0 < (L.filter p).length :=
